@@ -202,6 +202,17 @@ class TaskObj:
     def __init__(self, label):
         self.label = label
         self.cancelled_by = []
+        self.result = None
+        self.exception = None
+        self.awaited = 0
+
+    def await_(self, it, node):
+        """awaiting a task: its result, or the exception that ended it (eager model: the task already ran)"""
+        self.awaited += 1
+        it.run.ghost.setdefault('task_awaits', []).append(self)
+        if self.exception is not None:
+            raise PyExc(self.exception.cls, self.exception.eargs, getattr(node, 'lineno', None), it.where())
+        return self.result
 
     def truth(self, it):
         return True
@@ -222,8 +233,9 @@ def _create_task_model(it, args, kwargs, node):
     coro = args[0]
     t = TaskObj(getattr(coro, 'label', 'task'))
     try:
-        it.await_value(coro, node)
+        t.result = it.await_value(coro, node)
     except PyExc as e:
+        t.exception = e
         it.run.ghost.setdefault('task_exceptions', []).append(e)
     it.run.ghost.setdefault('tasks', []).append(t)
     return t
